@@ -129,6 +129,8 @@ def _check_eq_fn(F, rep, rule, heap_types, name, negate):
                         poss[i] &= {ty}
                     else:
                         poss[i] -= {ty}
+        if not poss[1] or not poss[2]:
+            continue            # the tests this path took on one value contradict each other: no execution takes it
         if rel is True:
             poss[1] = poss[2] = poss[1] & poss[2]
         differ = rel is False or not (poss[1] & poss[2])
@@ -170,6 +172,14 @@ def _check_eq_fn(F, rep, rule, heap_types, name, negate):
             a, b = r[2]          # the word is a pointer-sized value: address comparison is word comparison
         if delegated:
             kind, ok, why = 'delegates', True, 'the negation of eq'
+        elif r == FALSE and any(c[0][0] == 'switch' and truth(c) is False and word_cmp(c[0][1] if not negate else None) for c in p.constraints):
+            # the path found the two words different (the identity test failed): for every type whose values are their word (the
+            # immediates, and arrays, which are equal only to themselves) that IS the answer
+            kind = 'word'
+            imm = (ALL - set(heap_types)) | {'Array'}
+            badp = sorted({x for x, y in pairs if x == y and x not in imm})
+            ok = not badp
+            why = 'answers `different` for different words where both values may be %s' % badp
         elif r == FALSE:
             kind, ok, why = 'false', False, 'answers `different` although the tags are not known to differ'
         elif r == TRUE and identical:
